@@ -278,6 +278,10 @@ class Def:
         self.cparams = cparams      # [{'name','prim','default':int|None}]
         self.variants = variants    # [(vname, style 'named'|'tuple'|'unit', [(fname, texpr)])]
         self.where = where or []
+        self.module = ''            # near-miss mutants live in a sub-module, under the same identifier
+
+    def path(self):
+        return (self.module + '::' + self.name) if self.module else self.name
 
     def generics_decl(self, with_defaults=True):
         parts = []
@@ -403,7 +407,7 @@ class Adt(Ty):
 
     def rust(self):
         parts = [t.rust() for t in self.targs] + [const_lit(c['prim'], v) for c, v in zip(self.d.cparams, self.cargs)]
-        return self.d.name + (('<' + ', '.join(parts) + '>') if parts else '')
+        return self.d.path() + (('<' + ', '.join(parts) + '>') if parts else '')
 
     def term(self):
         d = self.d
@@ -455,7 +459,7 @@ class Adt(Ty):
                 if te[0] == 'param': lit.add(te[1])
         parts = [(t.deser_rust(lt) if i in lit else t.rust()) for i, t in enumerate(self.targs)]
         parts += [const_lit(c['prim'], v) for c, v in zip(self.d.cparams, self.cargs)]
-        return self.d.name + (('<' + ', '.join(parts) + '>') if parts else '')
+        return self.d.path() + (('<' + ', '.join(parts) + '>') if parts else '')
 
     def gen(self, rng, budget, force=None):
         if not self.d.is_enum:
@@ -737,7 +741,11 @@ class Universe:
         out = ['// generated by gen/universe.py — do not edit', '#![allow(unused, non_camel_case_types, non_snake_case, clippy::all)]',
                'use epsh::*;', 'use epserde::prelude::*;', '']
         for d in self.defs:
-            out.append(d.rust_def()); out.append('')
+            if d.module:
+                out.append('pub mod %s { use super::*; %s }' % (d.module, d.rust_def().replace('\n', ' ')))
+            else:
+                out.append(d.rust_def())
+            out.append('')
         out.append('pub fn registry() -> Vec<Entry> {')
         out.append('    vec![')
         for t in self.types:
@@ -786,3 +794,50 @@ def stress_defs(prefix='K'):
               ('Q', 'named', [('m', ('ty', Adt(z4, [], []))), ('n', ('ty', Str()))]), ('R', 'unit', [])])
     defs.append(d2)
     return defs
+
+
+SAME_SIZE = {'u8': ['i8'], 'i8': ['u8'], 'u16': ['i16'], 'i16': ['u16'], 'u32': ['i32', 'f32'], 'i32': ['u32'], 'f32': ['u32'],
+             'u64': ['i64', 'usize', 'f64'], 'i64': ['u64'], 'usize': ['u64', 'isize'], 'isize': ['usize'], 'f64': ['u64'],
+             'u128': ['i128'], 'i128': ['u128'], 'char': ['u32'], 'bool': ['u8']}
+
+
+def near_miss_mutants(d, counter):
+    """near-miss variants of a definition without type parameters: same identifier (in a sub-module), one
+    structural difference each. Returns [(kind, Def)]."""
+    import copy
+    out = []
+    def clone():
+        m = copy.deepcopy(d)
+        counter[0] += 1
+        m.module = 'm%d' % counter[0]
+        return m
+    fields_all = [(vi, fi) for vi, (vn, st, fs) in enumerate(d.variants) for fi in range(len(fs))]
+    named = [(vi, fi) for vi, fi in fields_all if d.variants[vi][1] == 'named']
+    if named:
+        vi, fi = named[0]
+        m = clone(); fn, te = m.variants[vi][2][fi]; m.variants[vi][2][fi] = (fn + 'x', te); out.append(('field-renamed', m))
+    for vi, (vn, st, fs) in enumerate(d.variants):
+        if len(fs) >= 2 and st == 'named':
+            m = clone(); f = m.variants[vi][2]; f[0], f[1] = f[1], f[0]; out.append(('fields-swapped', m)); break
+    for vi, fi in fields_all:
+        te = d.variants[vi][2][fi][1]
+        if te[0] == 'ty' and isinstance(te[1], Prim) and te[1].name in SAME_SIZE:
+            m = clone(); fn, _ = m.variants[vi][2][fi]
+            m.variants[vi][2][fi] = (fn, ('ty', Prim(SAME_SIZE[te[1].name][0]))); out.append(('field-retyped-same-size', m)); break
+    if d.copy == 'zero':
+        m = clone(); m.copy = 'deep'; out.append(('copy-kind-toggled', m))
+        if d.align_attr == 1:
+            m = clone(); m.reprs = list(m.reprs) + ['align(16)']; m.align_attr = 16; out.append(('repr-align-added', m))
+        else:
+            m = clone(); m.reprs = ['C', 'align(%d)' % (d.align_attr * 2)]; m.align_attr = d.align_attr * 2; out.append(('repr-align-changed', m))
+    if d.cparams:
+        m = clone(); m.cparams[0]['name'] = m.cparams[0]['name'] + 'X'
+        # rename the uses
+        def ren(te):
+            return te
+        out.append(('const-renamed', m))
+    if d.is_enum:
+        m = clone(); vn, st, fs = m.variants[0]; m.variants[0] = (vn + 'x', st, fs); out.append(('variant-renamed', m))
+        if len(d.variants) >= 2:
+            m = clone(); m.variants[0], m.variants[1] = m.variants[1], m.variants[0]; out.append(('variants-reordered', m))
+    return out
